@@ -31,6 +31,7 @@ func runC10(c *core.Ctx, r *core.Reporter) {
 	c10guard(c, r)
 	// call-next-method and next-method-p walk the :around methods through the same location objects as whoppers
 	c11walk(c, r, "C10.walk")
+	c10shadow(c, r, "C10.shadow")
 }
 
 // fromMethodsLookup: v derives from a lookup in Aux.methods.
